@@ -3,6 +3,7 @@ package types
 import (
 	"math/big"
 	"strings"
+	"unicode/utf8"
 
 	errorsmod "cosmossdk.io/errors"
 	sdk "github.com/cosmos/cosmos-sdk/types"
@@ -68,6 +69,11 @@ func (msg *MsgRecord) ValidateBasic() error {
 	_, err := sdk.AccAddressFromBech32(msg.Sender)
 	if err != nil {
 		return errorsmod.Wrapf(sdkerrors.ErrInvalidAddress, "invalid sender address (%s)", err)
+	}
+
+	// the request id is stored, indexed, emitted in events and exported to the JSON genesis: bytes that are not UTF-8 do not survive that
+	if !utf8.ValidString(msg.RequestId) {
+		return errorsmod.Wrapf(sdkerrors.ErrInvalidRequest, "request id is not valid UTF-8")
 	}
 
 	if msg.Amount.Amount.IsNil() {
